@@ -56,8 +56,8 @@ FLAVOURS = {  # (quick, thorough)
     "C18": (["plain"], ["plain"]),
 }
 SEEDS = {  # number of scenarios (each runs schedulesPer(prop, tier) schedules): (quick, thorough)
-    "C02": (3000, 60000), "C03": (2000, 30000), "C09": (3000, 60000), "C12": (400, 6000), "C13": (8000, 150000),
-    "C15": (600, 12000), "C18": (3000, 60000),
+    "C02": (10000, 400000), "C03": (8000, 200000), "C09": (10000, 400000), "C12": (600, 20000), "C13": (20000, 600000),
+    "C15": (1500, 60000), "C18": (10000, 400000),
 }
 
 def vkey(run, v):
@@ -103,7 +103,9 @@ class Worker:
         env = dict(os.environ)
         env.pop("ASAN_OPTIONS", None)
         self.errpath = "/dev/null"
-        self.p = subprocess.Popen(cmd, stdout=subprocess.PIPE, stderr=subprocess.DEVNULL, text=True, bufsize=1, env=env)
+        self.p = subprocess.Popen(cmd, stdout=subprocess.PIPE, stderr=subprocess.DEVNULL, bufsize=0, env=env)
+        self.fd = self.p.stdout.fileno()
+        self.buf = b""
         self.last_output = time.time()
 
 def run_batch(flavour, prop, tier, base, count, nworkers, results, crashes, fw_errors, deadline):
@@ -112,16 +114,21 @@ def run_batch(flavour, prop, tier, base, count, nworkers, results, crashes, fw_e
     state = {id(w): {"seed": None, "n": None, "sub": None, "stage": None} for w in workers}
     live = list(workers)
     while live:
-        fds = [w.p.stdout for w in live]
+        fds = [w.fd for w in live]
         ready, _, _ = select.select(fds, [], [], 5.0)
         now = time.time()
         for w in list(live):
             st = state[id(w)]
-            if w.p.stdout in ready:
-                line = w.p.stdout.readline()
-                if line:
+            if w.fd in ready:
+                chunk = os.read(w.fd, 1 << 20)
+                if chunk:
                     w.last_output = now
-                    handle_line(line, w, st, flavour, results, crashes)
+                    w.buf += chunk
+                    while True:
+                        nl = w.buf.find(b"\n")
+                        if nl < 0: break
+                        line = w.buf[:nl].decode("utf-8", "replace"); w.buf = w.buf[nl + 1:]
+                        handle_line(line, w, st, flavour, results, crashes)
                     continue
                 # EOF: the process ended
                 rc = w.p.wait()
